@@ -1,4 +1,4 @@
-//! C09 – rate and ETA estimator laws: correspondence with model/Estimator.v (binary64 instances,
+//! C09 – rate and ETA estimator laws: correspondence with model/Estimator.v + EstimatorFloat.v (binary64 instances,
 //! powf supplied as data) + direct oracle on the implementation's outputs.
 //!
 //! Everything goes through the PUBLIC API under the mock clock: the bar is created after
@@ -1002,7 +1002,7 @@ fn main() {
         std::panic::set_hook(Box::new(|i| eprintln!("PANIC {i}")));
     }
     let a = args();
-    let header = "From Coq Require Import Uint63.\nFrom IndModel Require Import Base Estimator.\nOpen Scope N_scope.\n";
+    let header = "From Coq Require Import Uint63.\nFrom IndModel Require Import Base Estimator EstimatorFloat.\nOpen Scope N_scope.\n";
     let mut s = Session::new(
         &a,
         "C09",
